@@ -608,6 +608,70 @@ fn long_binary(stats: &mut Stats) {
 }
 
 // ------------------------------------------------------------------------------------------
+// long and non-ASCII text members: names of 63..70000 bytes, ASCII and with multi-byte characters
+// lying across the 64-, 128- and 256-byte marks, parse to exactly the text presented (text route,
+// owned value and reader)
+fn long_text_one(member: usize, which: usize) -> Vec<(String, String)> {
+    use passkey_types::webauthn::CredentialCreationOptions;
+    let members = ["/publicKey/user/name", "/publicKey/user/displayName", "/publicKey/rp/name"];
+    let texts: Vec<String> = vec![
+        "a".repeat(63),
+        "a".repeat(64),
+        "a".repeat(65),
+        "n".repeat(200),
+        "\u{fc}".repeat(40),
+        format!("a{}", "\u{fc}".repeat(40)),
+        format!("{}\u{6f22}\u{5b57}", "x".repeat(62)),
+        format!("{}\u{1f600}tail", "y".repeat(61)),
+        format!("{}\u{1f600}", "z".repeat(126)),
+        format!("{}\u{e9}", "w".repeat(255)),
+        "L".repeat(70_000),
+        "\u{1f600}".repeat(5000),
+    ];
+    let (path, text) = (members[member % 3], &texts[which % texts.len()]);
+    let mut d = canonical("create");
+    if let Some(v) = d.pointer_mut(path) {
+        *v = json!(text);
+    }
+    let doc = d.to_string();
+    let read = |o: &CredentialCreationOptions| match member % 3 {
+        0 => o.public_key.user.name.clone(),
+        1 => o.public_key.user.display_name.clone(),
+        _ => o.public_key.rp.name.clone(),
+    };
+    let mut out = vec![];
+    let routes: [(&str, Box<dyn Fn() -> Result<CredentialCreationOptions, String>>); 3] = [
+        ("text", Box::new(|| serde_json::from_str(&doc).map_err(|e| e.to_string()))),
+        ("owned value", Box::new(|| serde_json::from_str::<Value>(&doc).map_err(|e| e.to_string()).and_then(|v| serde_json::from_value(v).map_err(|e| e.to_string())))),
+        ("reader", Box::new(|| serde_json::from_reader(doc.as_bytes()).map_err(|e| e.to_string()))),
+    ];
+    for (name, f) in routes.iter() {
+        match par::catch(|| f()) {
+            Err(p) => out.push((format!("doc=create/kind=panic/long-text"), format!("a {}-byte {path} through the {name} route: {p}", text.len()))),
+            Ok(Err(e)) => out.push((format!("doc=create/kind=parse-fails/long-text"), format!("a {}-byte {path} through the {name} route: {e}", text.len()))),
+            Ok(Ok(o)) => {
+                let got = read(&o);
+                if got != *text {
+                    out.push((format!("doc=create/kind=parses-to-different-value/long-text"), format!("a {}-byte {path} reads back as {} bytes through the {name} route", text.len(), got.len())));
+                }
+            }
+        }
+    }
+    out
+}
+fn long_text(stats: &mut Stats) {
+    for member in 0..3usize {
+        for which in 0..12usize {
+            let case = json!({"long_text": {"member": member, "which": which}});
+            stats.case(&case.to_string(), true, "long-text-member");
+            for (k, d) in long_text_one(member, which) {
+                stats.finding(Finding::new(k, d, case.clone()));
+            }
+        }
+    }
+}
+
+// ------------------------------------------------------------------------------------------
 // named unknown members: every identifier-like string literal of the types crate, used as the
 // name of a member an object does not declare.  Such a member is ignored: (1) added to the full
 // document it changes nothing; (2) given the value of a declared optional member M in a document
@@ -1035,6 +1099,7 @@ pub fn run(ctx: &Ctx) -> Result<Run, String> {
     emitted(&mut stats);
     named_members(&mut stats, ctx.threads);
     long_binary(&mut stats);
+    long_text(&mut stats);
     for case in client_data_cases() {
         stats.case(&case.to_string(), true, "client-data-order");
         for f in client_data_one(&case) {
@@ -1049,7 +1114,7 @@ pub fn run(ctx: &Ctx) -> Result<Run, String> {
     }
     let mut run = Run::from_stats(
         "exploration",
-        "creation and request options: all 256 presence patterns of the optional members x one presentation change at a time (each binary member as array / base64url +- padding / base64 +- padding / base64url with non-zero unused trailing bits +- padding, timeout and alg as number / numeric string / integral float / float string, an unknown scalar/object/array member at every position of every object, an unknown string for every enumeration, every algorithm identifier replaced by a number congruent to it modulo 2^64 / 2^32 (integer, string, float; dropped like any unknown identifier, or refused), every string value spelled with JSON escapes (all characters, first and last, an escaped solidus plus upper-case hex) - the same JSON value, an unknown entry at every index of every lenient list incl. pubKeyCredParams entries with an unknown alg in every member order and with trailing unknown members); thorough: all pairs of changes on the full document. Every document is parsed through three routes (borrowed text, an owned serde_json::Value, a byte reader) which must agree (a disagreement is a finding of its own). Oracle: Debug of the parsed value equals that of the canonical presentation (unknown enum = member absent, unknown list entry = entry absent). Long binary members: a challenge of 255..100000 bytes in each of the five presentations parses to the same value. Named unknown members: every identifier-like string literal of the types and client crates (and near-miss spellings of the declared names) as the name of an undeclared member of every object, with seven value shapes, and standing in for each declared member of that object (it must stay ignored; the one spelling the pinned tree documents, allowList, is exempt). Plus base64url encode/decode identity on all byte strings up to length 2 (3 thorough) and patterned lengths 4..64 against an own RFC 4648 codec; every credential emitted by 72 register+authenticate ceremonies re-parsed from its JSON; CollectedClientData member order for 3 extra-data types x 16 orders of 0..3 unknown members x crossOrigin x type, and the client data emitted by Client::register/authenticate for five caller-supplied extras with a standard member's name at each position. Non-trivial = distinct case with at least one presentation change / non-empty input",
+        "creation and request options: all 256 presence patterns of the optional members x one presentation change at a time (each binary member as array / base64url +- padding / base64 +- padding / base64url with non-zero unused trailing bits +- padding, timeout and alg as number / numeric string / integral float / float string, an unknown scalar/object/array member at every position of every object, an unknown string for every enumeration, every algorithm identifier replaced by a number congruent to it modulo 2^64 / 2^32 (integer, string, float; dropped like any unknown identifier, or refused), every string value spelled with JSON escapes (all characters, first and last, an escaped solidus plus upper-case hex) - the same JSON value, an unknown entry at every index of every lenient list incl. pubKeyCredParams entries with an unknown alg in every member order and with trailing unknown members); thorough: all pairs of changes on the full document. Every document is parsed through three routes (borrowed text, an owned serde_json::Value, a byte reader) which must agree (a disagreement is a finding of its own). Oracle: Debug of the parsed value equals that of the canonical presentation (unknown enum = member absent, unknown list entry = entry absent). Long text members: user.name, user.displayName and rp.name of 63..70000 bytes, ASCII and with multi-byte characters across the 64/128/256-byte marks, read back unchanged through the three routes. Long binary members: a challenge of 255..100000 bytes in each of the five presentations parses to the same value. Named unknown members: every identifier-like string literal of the types and client crates (and near-miss spellings of the declared names) as the name of an undeclared member of every object, with seven value shapes, and standing in for each declared member of that object (it must stay ignored; the one spelling the pinned tree documents, allowList, is exempt). Plus base64url encode/decode identity on all byte strings up to length 2 (3 thorough) and patterned lengths 4..64 against an own RFC 4648 codec; every credential emitted by 72 register+authenticate ceremonies re-parsed from its JSON; CollectedClientData member order for 3 extra-data types x 16 orders of 0..3 unknown members x crossOrigin x type, and the client data emitted by Client::register/authenticate for five caller-supplied extras with a standard member's name at each position. Non-trivial = distinct case with at least one presentation change / non-empty input",
         true,
         stats,
     );
@@ -1063,6 +1128,9 @@ pub fn replay(ctx: &Ctx, case: &Value) -> Result<Vec<Finding>, String> {
         let mut st = Stats::new();
         b64_one(&b, &mut st);
         return Ok(st.findings.into_values().map(|x| x.0).collect());
+    }
+    if let Some(l) = case.get("long_text") {
+        return Ok(long_text_one(l["member"].as_u64().unwrap_or(0) as usize, l["which"].as_u64().unwrap_or(0) as usize).into_iter().map(|(k, d)| Finding::new(k, d, case.clone())).collect());
     }
     if case.get("long_binary").is_some() {
         let mut st = Stats::new();
